@@ -1,6 +1,7 @@
 //! cal-level workers (`iceoryx2-cal` concepts with process-local and POSIX back-ends).
 extern crate iceoryx2_bb_loggers;
 mod c03conn;
+mod c13;
 mod calcfg;
 
 fn main() {
@@ -8,6 +9,7 @@ fn main() {
     iceoryx2_log::set_log_level(iceoryx2_log::LogLevel::Fatal);
     let rep = match args.sub.as_str() {
         "c03conn" => c03conn::campaign(&args),
+        "c13" => c13::run(&args),
         "warmup" => return,
         other => {
             eprintln!("unknown sub command {:?}", other);
